@@ -10,7 +10,7 @@ CHECKS = {
    note="Trusted: TLC, the scripted source and pattern recogniser of the harness, the read-only hook bufiox.VerifState. Bounds: MC cfg constants (sizes incl. 4096/4097/9000, <=3 (quick) / 4 (thorough) operations, MaxEmpty scaled to 3 in MC, real 100 in traces); traces: histories up to 40 (quick) / 300 (thorough) operations.",
    design="6 C04, 4.1, App. C"),
  "C05": dict(
-   technique="TLA+ model (WriterImpl/WriterAbs) checked by TLC + trace validation of real bufiox writers by TLC",
+   technique="TLA+ model (WriterImpl/WriterAbs) checked by TLC (bounded) and, through a TLC-checked refinement to its integer core, by Apalache (inductive invariant, all sizes and history lengths) + trace validation of real bufiox writers by TLC",
    text="TLC exhaustively checks the stitching design of DefaultWriter/BytesWriter (delayed copy at Flush): stitch windows tile the final buffer, every handed-out region lies in its own window, regions are contiguous in order, sticky sink error, WrittenLen. The same actions validate recorded executions of the real writers (exhaustive histories <=3 ops + final Flush over boundary sizes, random histories, eager/lazy/re-filled regions with distinct content, sink failing at the k-th write, bytes targets nil/empty/partial/full): WriterAbs judges the bytes the sink received, WriterImpl binds len/cap/parked buffers.",
    note="Trusted: TLC, recording sink and per-region pattern recogniser of the harness, hook bufiox.VerifState. Bounds: MC <=4 (quick) / 5 (thorough) operations over sizes {0,1,4095,4096,4097,9000,20000}; traces up to 40/200 operations. A second flush cycle of a bytes writer is judged for errors/WrittenLen only.",
    design="6 C05, 4.2, App. C"),
@@ -122,7 +122,7 @@ m = {
  },
  "engines": [
    {"name": "tlc", "path": "/opt/veriftools/tla/tla2tools.jar", "serves_properties": sorted(CHECKS), "kind_free_text": "TLC 1.8 model checker: exhaustive checking of the design modules and validation of recorded traces (Trace_*.tla)"},
-   {"name": "apalache", "path": "/opt/veriftools/apalache", "serves_properties": ["C04", "C09", "C14"], "kind_free_text": "Apalache 0.58 symbolic model checker: inductive invariants of Ind_BufReader (all sizes), Ind_BufPool and Ind_Concurrency (any run length), each with a negative control and non-vacuity probes"},
+   {"name": "apalache", "path": "/opt/veriftools/apalache", "serves_properties": ["C04", "C05", "C09", "C14"], "kind_free_text": "Apalache 0.58 symbolic model checker: inductive invariants of Ind_BufReader and Ind_BufWriter (all sizes), Ind_BufPool and Ind_Concurrency (any run length), each with a negative control and non-vacuity probes"},
    {"name": "tlapm", "path": "/opt/veriftools/tlapm", "serves_properties": ["C09", "C14"], "kind_free_text": "TLAPS proofs Proof_BufPool / Proof_Concurrency (arbitrary sets of buffers / goroutines / objects), each with a control module that must leave an obligation unproved"},
    {"name": "vcheck", "path": "/verif/harness", "serves_properties": sorted(CHECKS), "kind_free_text": "Go harness: drives the real code, records ndjson traces, runs TLC, confirms and reports"},
  ],
